@@ -58,6 +58,13 @@ def run(ctx):
         for m in o["c06"]:
             res.add_violation(dict(driver="painter", **t, message=m, sig={}))
     s = agg["summary"]
+    # a solver copied mid-run (deepcopy / pickle) and continued: copy and original judged by the same oracle
+    from mc import copyrun
+    from mc.common import pmap as _pm
+    ctasks = copyrun.tasks(ctx.thorough)
+    for t, msgs in zip(ctasks, _pm(copyrun.case_c06, ctasks, chunksize=4)):
+        for mm in msgs:
+            res.add_violation(dict(driver="copy", task=t, message=mm, sig={}))
     res.cov = dict(
         states=agg["nodes"], transitions=agg["nodes"], traces_validated_against_impl=agg["runs"] + s.get("solve_twins", 0),
         evaluations=agg["trials"], distinct_nontrivial=s.get("nontrivial_runs", 0),
@@ -74,6 +81,9 @@ def run(ctx):
 
 
 def replay(rec):
+    if rec.get("driver") == "copy":
+        from mc import copyrun
+        return copyrun.case_c06(rec["task"])
     if rec.get("driver") == "painter":
         from mc import painters
         return painters.case(rec)["c06"]
